@@ -529,7 +529,9 @@ def _push_primitives(ctx: Any) -> List[FuncInfo]:
         if any(isinstance(c, ast.Call) and call_name(c) == 'heappush' and c.args and self_attr(c.args[0], mm) == '_query_heap' for c in walk_local_ordered(m_.node)):
             out.append(m_)
     if not out:
-        raise AnalysisError('anchor vanished: the routine of the scheduler that pushes onto the query heap')
+        from sa import StructuralViolation
+
+        raise StructuralViolation('src/zeroconf/_services/browser.py', 'QueryScheduler', 'heappush(self._query_heap, ...)', 'a scheduled query is pushed onto the heap', 'no routine of the scheduler pushes onto its query heap: nothing that is scheduled is ever asked for again')
     return sorted(out, key=lambda g_: g_.name)
 
 
